@@ -432,10 +432,14 @@ func (rn *runner) runErrorPhase(scratch string) {
 				obs = observeImage(image)
 			}
 		}
-		// CLI observation: absolute directory for even cases, directory relative to the process cwd for odd ones
-		// (thorough: both).
+		// CLI observation. Run A, default configuration: absolute directory for even cases, directory relative to the
+		// process cwd for odd ones. Run B, configuration dimension: one setting changed (files copied to memory, or one of
+		// the four other --error-format values) x directory form, the 10 combinations rotating over the cases (i/2: both
+		// mutation operators of a token meet the same combination). Thorough: both forms in the default configuration and
+		// the whole product of the 18 others.
 		type cliRun struct {
 			userDir string
+			cfg     cliConfig
 			res     bufx.CLIResult
 		}
 		var cliRuns []cliRun
@@ -445,20 +449,51 @@ func (rn *runner) runErrorPhase(scratch string) {
 		} else {
 			forms := []string{dir}
 			if rel, rerr := filepath.Rel(cwd, dir); rerr == nil && cwd != "" {
-				if r.Quick() {
-					if i%2 == 1 {
-						forms = []string{rel}
-					}
-				} else {
-					forms = append(forms, rel)
-				}
+				forms = append(forms, rel)
 			}
-			for _, form := range forms {
+			var plans []cliPlan
+			if r.Quick() {
+				others := otherCLIConfigs(false)
+				plans = append(plans, cliPlan{form: i % 2}, others[(i/2)%len(others)])
+			} else {
+				plans = append(plans, cliPlan{form: 0}, cliPlan{form: 1})
+				plans = append(plans, otherCLIConfigs(true)...)
+			}
+			for _, pl := range plans {
+				if pl.form >= len(forms) {
+					continue
+				}
+				form := forms[pl.form]
 				input := filepath.ToSlash(filepath.Join(form, filepath.FromSlash(sel.SubDir)))
-				cliRuns = append(cliRuns, cliRun{userDir: filepath.ToSlash(form), res: bufx.RunCLI(rn.ctx, nil, "", "build", input, "-o", "-#format=binpb")})
+				args := append([]string{"build", input, "-o", "-#format=binpb"}, pl.cfg.args()...)
+				cliRuns = append(cliRuns, cliRun{userDir: filepath.ToSlash(form), cfg: pl.cfg, res: bufx.RunCLI(rn.ctx, pl.cfg.env(), "", args...)})
 				cnt.add("cli_error_phase_runs", 1)
 			}
 			os.RemoveAll(dir)
+		}
+		mkCaseRun := func(cr cliRun) any {
+			c := mkCase().(Case)
+			if cr.cfg != (cliConfig{}) {
+				cfg := cr.cfg
+				c.Config = &cfg
+			}
+			return c
+		}
+		// The runs in the default configuration come first and are the control: a kind of violation (the signature without
+		// observation point, clause name and directory form) that they show is not reported again under the name of a
+		// configuration - one defect, one signature; a configuration is only blamed for what it changes.
+		controlKinds := map[string]bool{}
+		emitFor := func(cr cliRun, prefix string) func(kind, what string) {
+			return func(kind, what string) {
+				bare := strings.TrimPrefix(strings.TrimPrefix(kind, "abs/"), "rel/")
+				if cr.cfg == (cliConfig{}) {
+					controlKinds[bare] = true
+				} else if controlKinds[bare] {
+					cnt.add("cli_config_violation_also_in_default_configuration", 1)
+					return
+				}
+				report(r, []violation{{prefix + "/" + kind, what}}, mkCaseRun(cr))
+			}
 		}
 
 		switch {
@@ -471,17 +506,24 @@ func (rn *runner) runErrorPhase(scratch string) {
 				report(r, checkImage("api", exp, obs, cnt), mkCase())
 			}
 			for _, cr := range cliRuns {
+				pt := cr.cfg.point("binpb")
+				emit := emitFor(cr, pt)
 				if cr.res.ExitCode != 0 {
-					r.Violate("cli/build/unexpected-exit", fmt.Sprintf("%s: the texts compile directly, `buf build %s` exit %d stderr %q", note, cr.userDir, cr.res.ExitCode, cr.res.Stderr), mkCase())
+					emit("build/unexpected-exit", fmt.Sprintf("%s: the texts compile directly, `buf build %s` (%s) exit %d stderr %q", note, cr.userDir, cr.cfg, cr.res.ExitCode, cr.res.Stderr))
 					continue
 				}
 				wire, derr := observeWire([]byte(cr.res.Stdout))
 				if derr != nil {
-					r.Violate("cli/build/undecodable-output", fmt.Sprintf("%s: %v", note, derr), mkCase())
+					emit("build/undecodable-output", fmt.Sprintf("%s: %v", note, derr))
 					continue
 				}
 				cnt.add("cli_images", 1)
-				report(r, checkImage("cli", exp, wire, cnt), mkCase())
+				if cr.cfg.Mem {
+					cnt.add("cli_images_copy_to_memory", 1)
+				}
+				for _, v := range checkImage(pt, exp, wire, cnt) {
+					emit(strings.TrimPrefix(v.sig, pt+"/"), v.what)
+				}
 			}
 		case direct.OtherErr != "":
 			cnt.add("error_cases_unpositioned", 1)
@@ -522,21 +564,33 @@ func (rn *runner) runErrorPhase(scratch string) {
 			for _, cr := range cliRuns {
 				cnt.add("cli_error_runs", 1)
 				wantCLI, _ := expectedPositions(w, direct, cr.userDir)
-				got, other := cliAnnotations(cr.res.Stderr)
+				got, other := parseDiagnostics(cr.cfg.ErrFormat, cr.res.Stderr)
 				form := "abs"
 				if !filepath.IsAbs(cr.userDir) {
 					form = "rel"
 					cnt.add("cli_error_runs_relative_dir", 1)
 				}
+				if cr.cfg.Mem {
+					cnt.add("cli_error_runs_copy_to_memory", 1)
+					if form == "rel" {
+						cnt.add("cli_error_runs_copy_to_memory_relative_dir", 1)
+					}
+				}
+				if cr.cfg.ErrFormat != "" {
+					cnt.add("cli_error_runs_error_format_"+cr.cfg.ErrFormat, 1)
+				}
+				// "cli/error" in the default configuration; "cli-mem/..." with the files copied to memory, ".../error-<format>/..."
+				// with another diagnostics format
+				emit := emitFor(cr, cr.cfg.point("binpb")+"/"+cr.cfg.errClause())
 				switch {
 				case cr.res.ExitCode == 0:
-					r.Violate("cli/error/exit-0-despite-compile-error", fmt.Sprintf("%s: `buf build` exit 0", note), mkCase())
+					emit("exit-0-despite-compile-error", fmt.Sprintf("%s: `buf build` (%s) exit 0", note, cr.cfg))
 				case len(cr.res.Stdout) != 0:
-					r.Violate("cli/error/output-despite-compile-error", fmt.Sprintf("%s: `buf build` wrote %d bytes of image and exit %d", note, len(cr.res.Stdout), cr.res.ExitCode), mkCase())
+					emit("output-despite-compile-error", fmt.Sprintf("%s: `buf build` (%s) wrote %d bytes of image and exit %d", note, cr.cfg, len(cr.res.Stdout), cr.res.ExitCode))
 				case cr.res.ExitCode != 100 || len(other) > 0:
-					r.Violate("cli/error/not-annotations", fmt.Sprintf("%s: `buf build %s` exit %d stderr %q; expected exit 100 and file:line:col lines %v", note, cr.userDir, cr.res.ExitCode, cr.res.Stderr, sortedPos(wantCLI)), mkCase())
+					emit("not-annotations", fmt.Sprintf("%s: `buf build %s` (%s) exit %d stderr %q; expected exit 100 and one diagnostic for each of %v", note, cr.userDir, cr.cfg, cr.res.ExitCode, cr.res.Stderr, sortedPos(wantCLI)))
 				case !samePositions(got, wantCLI):
-					r.Violate("cli/error/"+form+"/"+classifyPosDiff(got, wantCLI), fmt.Sprintf("%s: `buf build %s` printed %v, expected %v", note, cr.userDir, sortedPos(got), sortedPos(wantCLI)), mkCase())
+					emit(form+"/"+classifyPosDiff(got, wantCLI), fmt.Sprintf("%s: `buf build %s` (%s) printed %v, expected %v", note, cr.userDir, cr.cfg, sortedPos(got), sortedPos(wantCLI)))
 				}
 			}
 		}
